@@ -316,6 +316,22 @@ func cancelInWatcher(f *ssa.Function, d *ssa.Call) (bool, string) {
 			}
 			mc, ok := g.Call.Value.(*ssa.MakeClosure)
 			if !ok {
+				// `go m.watch(ctx, cancel, …)`: a declared function started as the watcher, cancel handed in as an argument
+				if callee := g.Call.StaticCallee(); callee != nil && callee.Blocks != nil {
+					for i, a := range g.Call.Args {
+						isCancel := carriers[a]
+						if u, ok := a.(*ssa.UnOp); ok && u.Op == token.MUL && carriers[u.X] {
+							isCancel = true
+						}
+						if !isCancel || i >= len(callee.Params) || !invokesValue(callee, callee.Params[i]) {
+							continue
+						}
+						if sig := lossSignal(callee); sig != "" {
+							return true, "cancel invoked by watcher goroutine " + callee.Name() + " waiting on " + sig
+						}
+						return false, "goroutine " + callee.Name() + " calls cancel but waits on no lock-loss signal (no receive from a non-context Done() channel)"
+					}
+				}
 				continue
 			}
 			cf := mc.Fn.(*ssa.Function)
@@ -335,6 +351,42 @@ func cancelInWatcher(f *ssa.Function, d *ssa.Call) (bool, string) {
 		}
 	}
 	return false, "no goroutine started by " + f.Name() + " invokes the cancel function of the returned context: lock loss is never signalled"
+}
+
+// invokesValue: function cf invokes (call or defer) the value v (a parameter), directly or after spilling it to a local cell.
+func invokesValue(cf *ssa.Function, v ssa.Value) bool {
+	cells := map[ssa.Value]bool{}
+	if refs := v.Referrers(); refs != nil {
+		for _, ref := range *refs {
+			if st, ok := ref.(*ssa.Store); ok && st.Val == v {
+				cells[st.Addr] = true
+			}
+		}
+	}
+	is := func(x ssa.Value) bool {
+		if x == v {
+			return true
+		}
+		if u, ok := x.(*ssa.UnOp); ok && u.Op == token.MUL && cells[u.X] {
+			return true
+		}
+		return false
+	}
+	for _, b := range cf.Blocks {
+		for _, ins := range b.Instrs {
+			switch c := ins.(type) {
+			case *ssa.Defer:
+				if is(c.Call.Value) {
+					return true
+				}
+			case *ssa.Call:
+				if is(c.Call.Value) {
+					return true
+				}
+			}
+		}
+	}
+	return false
 }
 
 // callsValue: function cf invokes (call or defer) the free variable fv (directly or through a load of the captured cell).
@@ -1166,19 +1218,31 @@ func definedByCall(fn *FuncNode, id *ast.Ident, callee string) bool {
 func checkWatcherPrompt(p *Prog, r *Result) {
 	r.min("L5w", 1)
 	n := 0
+	// functions started with `go` in the lock packages: literals and declared functions alike
+	spawned := map[*FuncNode]bool{}
 	for _, fn := range p.sortedFuncs("lock") {
-		if fn.Lit == nil || fn.Parent == nil {
+		if fn.Body == nil {
 			continue
 		}
-		// spawned with `go`?
-		isGo := false
-		ast.Inspect(fn.Parent.Body, func(x ast.Node) bool {
-			if g, ok := x.(*ast.GoStmt); ok && unparen(g.Call.Fun) == ast.Expr(fn.Lit) {
-				isGo = true
+		fn.inspectBody(func(x ast.Node) bool {
+			g, ok := x.(*ast.GoStmt)
+			if !ok {
+				return true
+			}
+			if lit, ok := unparen(g.Call.Fun).(*ast.FuncLit); ok {
+				if t := p.ByLit[lit]; t != nil {
+					spawned[t] = true
+				}
+			} else if f := fn.Callee(g.Call); f != nil {
+				if t := p.ByObj[f]; t != nil {
+					spawned[t] = true
+				}
 			}
 			return true
 		})
-		if !isGo {
+	}
+	for _, fn := range p.sortedFuncs("lock") {
+		if !spawned[fn] || fn.Body == nil {
 			continue
 		}
 		var lossCase *ast.CommClause
